@@ -52,27 +52,8 @@ def tables(v):
 
 
 def memo_only(before, after):
-    """the difference between two snapshots lies in memo slots only (lazily filled caches are not a change of value)"""
-    if before == after:
-        return True
-    if isinstance(before, tuple) and isinstance(after, tuple) and len(before) == 2 and len(after) == 2 and before[0] == after[0] \
-            and isinstance(before[1], tuple) and isinstance(after[1], tuple):
-        if before[0] == "dict" or before[0] in ("tuple", "list"):
-            if len(before[1]) != len(after[1]):
-                return False
-            return all(memo_only(b, a) for b, a in zip(before[1], after[1]))
-        bf, af = dict(before[1]), dict(after[1])
-        if set(bf) != set(af):
-            return False
-        for k in bf:
-            if bf[k] == af[k]:
-                continue
-            if bf[k] == "None" and k.startswith("_") and ("cache" in k or "memo" in k or k in MEMO_SLOTS):
-                continue
-            if not memo_only(bf[k], af[k]):
-                return False
-        return True
-    return False
+    """snapshots exclude the memoised hash slots, so an unchanged operand has an equal snapshot"""
+    return before == after
 
 
 MEMO_SLOTS = set()
